@@ -875,10 +875,6 @@ func (w *WalletManager) GetAddresses(addressClass uint16) ([]*txmgr.AddressDetai
 		if stdAddr, ok := mStd[stakingAddr.StdAddress]; ok {
 			if stakingAddr.Used {
 				stdAddr.Used = stakingAddr.Used
-				continue
-			}
-			if !stdAddr.Used {
-				delete(mStd, stakingAddr.StdAddress)
 			}
 		} else {
 			if stakingAddr.Used {
